@@ -80,6 +80,13 @@ def run(R):
             for st in (vs if (not quick or n < 20) else [R.rng.choice(vs)]):
                 ph = bytes(R.rng.randrange(1, 256) for _ in range(n))
                 ops.append(CS.crypt_op("rn", 0, ph, st)); meta.append((m, "valid", n, len(st)))
+    # arithmetic-edge phrases: every byte 0xff / 0x80 / 0x01, and 0xff runs behind a carry-producing block, at lengths around the digests' block
+    # sizes - carries in a 512-bit checksum (Streebog), counters and length fields behave differently on all-ones words than on random text
+    # (seeded/C02e: a lost carry in add512 needs an aligned run of eight 0xff bytes in the second or a later 64-byte block)
+    for m, vs in canon_variants.items():
+        for n in ((8, 64, 80, 128, 200) if quick else (8, 63, 64, 65, 72, 79, 80, 96, 127, 128, 136, 192, 200, 256, 511)):
+            for pat in (b"\xff" * n, b"\x80" * n, b"\x01" * n, (b"\xfe" * 64 + b"\xff" * n)[:max(n, 72)]):
+                ops.append(CS.crypt_op("rn", 0, pat, vs[0])); meta.append((m, "edge-phrase", len(pat), len(vs[0])))
     # salt lengths: the hash underneath changes its code path with the length of what it absorbs (PBKDF2-HMAC-SHA256 has a one-block fast path
     # whose entry depends on the salt length modulo 64, the MD-style methods pad differently around 55/56/64): every salt length of the yescrypt
     # family up to two blocks, and the boundary lengths of the other variable-salt methods (seeded/C02c, C03c)
